@@ -13,8 +13,8 @@ from ..outcome import CaseTimeout, exc_bucket, fail, inconclusive, passed
 
 ID = 'C16'
 LEVEL = 'exploration'
-CASES = {'quick': 720, 'thorough': 7000}
-SHRINK_BUDGET = {'quick': 30, 'thorough': 200}
+CASES = {'quick': 560, 'thorough': 12000}
+SHRINK_BUDGET = {'quick': 20, 'thorough': 200}
 CASE_TIMEOUT = 30
 TECHNIQUE = ('property-based testing (Hypothesis) with fault injection: generated networks x generated fault plans; '
              'wntr.sim.core._solver_helper is wrapped for the duration of one run to count/label solver calls and '
